@@ -695,3 +695,74 @@ def d_update(ex, st, recv, args, kwargs, cx):
 
 
 CONTAINER_METHODS[("dict", "update")] = d_update
+
+
+# ====================================================================== list mutators (exact, as array schemas)
+def l_insert(ex, st, recv, args, kwargs, cx):
+    """list.insert(i, x): i is clamped like CPython does; elements from the insertion point on shift by one"""
+    from .eval_call import Schema
+    o, w = ex.o, ex.w
+    if o.tyof(st, args[0]) != "int":
+        raise Unsupported("list.insert with a non-int index")
+    st = st.clone()
+    r = o.r(recv)
+    n = o.seq_len(st, r)
+    i = o.i(args[0])
+    p = z3.If(i < 0, z3.If(n + i < 0, 0, n + i), z3.If(i > n, n, i))
+    old = st.rd("$items", r)
+    new = w.fresh("ins_items", w.SORTS["items"])
+
+    def inst(j, old=old, new=new, p=p, x=args[1].e, n=n):
+        return z3.Implies(z3.And(j >= 0, j <= n),
+                          z3.Select(new, j) == z3.If(j < p, z3.Select(old, j), z3.If(j == p, x, z3.Select(old, j - 1))))
+    st.schemas = st.schemas + [Schema("int", inst, "list.insert")]
+    st.assume(inst(p))
+    st.terms.append(("int", p))
+    st.wr("$items", r, new)
+    st.wr("$len", r, n + 1)
+    yield st, o.none()
+
+
+def l_setitem_int(ex, st, recv, args, kwargs, cx):
+    for out in ex.setitem(st, SV(recv.e, "ref:list"), args[0], args[1], cx):
+        yield out[0], (out[1] if out[1] is not None else ex.o.none())
+
+
+def d_setitem(ex, st, recv, args, kwargs, cx):
+    st = st.clone()
+    ex.o.dict_set(st, ex.o.r(recv), args[0].e, args[1].e)
+    yield st, ex.o.none()
+
+
+def d_setdefault(ex, st, recv, args, kwargs, cx):
+    o = ex.o
+    r = o.r(recv)
+    k = args[0].e
+    dflt = args[1].e if len(args) > 1 else ex.w.V.none
+    has = o.dict_has(st, r, k)
+    a = st.clone()
+    a.assume(has)
+    if o.feasible(a):
+        yield a, SV(o.dict_get(a, r, k))
+    b = st.clone()
+    b.assume(z3.Not(has))
+    if o.feasible(b):
+        o.dict_set(b, r, k, dflt)
+        yield b, SV(dflt)
+
+
+CONTAINER_METHODS[("list", "insert")] = l_insert
+CONTAINER_METHODS[("list", "__setitem__")] = l_setitem_int
+CONTAINER_METHODS[("dict", "__setitem__")] = d_setitem
+CONTAINER_METHODS[("dict", "setdefault")] = d_setdefault
+
+
+def b_getattr(ex, st, args, kwargs, cx, node):
+    """getattr(obj, "literal"[, default]) on an object whose class declares the attribute / property"""
+    name = z3.simplify(ex.o.s(args[1]))
+    if not z3.is_string_value(name):
+        raise Unsupported("getattr with a dynamic name")
+    yield from ex.getattr_(st, args[0], name.as_string(), cx)
+
+
+BUILTIN_FUNCS["getattr"] = b_getattr
